@@ -1,5 +1,6 @@
 import KcpVerif.Props.C01Full
 import KcpVerif.Lemmas.C01FecRef
+import KcpVerif.Lemmas.C01FecHist
 /-!
 C01 — session level with FEC (`C01_session_fec`, DESIGN.md 7.1 item 7 and 13): two sessions of
 `Model/SessFec.lean` (no cipher, FEC `d/p` on both sides; the model the `sessfec` component ties op
@@ -30,7 +31,7 @@ at `A`, no unread leftover at `B`.  ANY interleaving of session operations of `A
 deliveries to `B.packetInput` of any datagram `A` has put on the wire so far (data or parity; any
 later time, any number of times, any order, or never; any time gaps for the encoders).
 
-Hypothesis `FecRunGenuine` (NOT discharged here, see `C01_session_fec_full`): at each delivery, what
+Hypothesis `FecRunGenuine` (discharged in `C01_session_fec` below): at each delivery, what
 `A` has put on the wire so far are packets of well-formed `d/p` groups whose payloads are the
 datagrams `A`'s core handed to `output` — the statement `C07_enc_group` proves group by group.
 Range hypothesis: `A` has numbered fewer than 2^32 segments.
@@ -67,21 +68,176 @@ theorem C01_session_fec_partial {C : CodecNew} (hC : Lawful C) (d p : Nat) (dec0
   rw [hacc, bytesOf_append]
   exact List.prefix_append _ _
 
-/-- **Full statement (NOT proved): no hypothesis on the sender's FEC stage.**  Missing: the invariant
-that `EncGenuine C d p` holds for a session created with a `d/p` encoder after any sequence of
-operations, as long as fewer than `paws` FEC ids have been used (so that the family of groups is a
-function of the shard id) — an incremental form of `C07_enc_group` (which is stated for a whole group
-fed at once from a group start): the data packets of a group that is still filling are packets of
-the group completed with placeholder payloads, and the parity packets appear when the group fills. -/
-def C01_session_fec_full : Prop :=
-  ∀ {C : CodecNew}, Lawful C → ∀ (d p : Nat) (enc0 : Encoder) (dec0 : Decoder),
-    Encoder.new C d p 0 = some enc0 → Decoder.new C d p = some dec0 →
-    ∀ (xA xB : SessFec), Fresh xA.s.k → Fresh xB.s.k → xB.s.bufptr = [] → xA.enc = some enc0 →
-      xA.headerSize = fecHeaderSizePlus2 → xB.dec = some dec0 →
-      xB.s.k.rcv_nxt = xA.s.k.snd_nxt → 0 < xA.s.k.mss.toNat →
-      ∀ ops : List FSOp, (fsrun C ⟨{ x := xA }, { x := xB }⟩ ops).A.log.length < 2 ^ 32 →
-        (fsrun C ⟨{ x := xA }, { x := xB }⟩ ops).A.wire.length < 2 ^ 31 →
-        (fsrun C ⟨{ x := xA }, { x := xB }⟩ ops).B.rd <+: (fsrun C ⟨{ x := xA }, { x := xB }⟩ ops).A.wr
+/-- **`C01_session_fec`: no hypothesis on the sender's FEC stage.**  Sessions `A` (writer, a fresh
+`d/p` encoder: `Encoder.new C d p 0`, `headerSize = fecHeaderSizePlus2`) and `B` (reader, a fresh `d/p`
+decoder) — the same `d/p` at both ends —, no cipher, any lawful codec; otherwise as
+`C01_session_fec_partial`: any interleaving of session operations of `A` (including `packetInput` of
+arbitrary bytes), of `B` (other than `packetInput`), and deliveries to `B.packetInput` of any datagram
+`A` has put on the wire so far (data or parity, any later time, any multiplicity, any order, or never),
+any time gaps (parity generated or skipped).
+
+Range hypotheses (decidable on the run): `A` has numbered fewer than 2^32 segments, and the FEC ids
+have not wrapped: `NoWrap d p A.cwire`, i.e. with `k` = the number of datagrams `A`'s core has handed to
+`output`, `(k / d + 1) · (d + p) ≤ paws = 0xffffffff / (d+p) · (d+p)` — the group being filled lies
+below the wrap (fewer than `paws / (d+p) · d` datagrams, about `2^32 · d / (d+p)`).
+
+Then everything `B.Read` has returned is a prefix of everything `A.WriteBuffers` has accepted.
+
+The sender's side (`Lemmas/C01FecEnc.lean`, `C01FecHist.lean`): in every reachable state, as long as the
+ids have not wrapped, the wire consists of packets of ONE family of well-formed `d/p` groups — the
+finished groups (by `enc_group`/`C07_enc_group`, parity generated or skipped), then the group still
+filling completed with empty placeholder payloads — whose payloads are the datagrams the core emitted
+(`hist_encode`, `hist_pp`, `fsrun_genuine`). -/
+theorem C01_session_fec {C : CodecNew} (hC : Lawful C) (d p : Nat) (enc0 : Encoder) (dec0 : Decoder)
+    (hnewE : Encoder.new C d p 0 = some enc0) (hnewD : Decoder.new C d p = some dec0)
+    (xA xB : SessFec) (hA : Fresh xA.s.k) (hB : Fresh xB.s.k) (hbB : xB.s.bufptr = [])
+    (heA : xA.enc = some enc0) (hhA : xA.headerSize = fecHeaderSizePlus2) (hdB : xB.dec = some dec0)
+    (hsn : xB.s.k.rcv_nxt = xA.s.k.snd_nxt) (hm : 0 < xA.s.k.mss.toNat) (ops : List FSOp)
+    (hwrap : NoWrap d p (fsrun C ⟨{ x := xA }, { x := xB }⟩ ops).A.cwire)
+    (hL : (fsrun C ⟨{ x := xA }, { x := xB }⟩ ops).A.log.length < 2 ^ 32) :
+    (fsrun C ⟨{ x := xA }, { x := xB }⟩ ops).B.rd <+: (fsrun C ⟨{ x := xA }, { x := xB }⟩ ops).A.wr :=
+  C01_session_fec_partial hC d p dec0 hnewD xA xB hA hB hbB hdB hsn hm ops
+    (fsrun_genuine hC ops _ (encOk_fresh hnewE xA heA hhA) hwrap) hL
+
+/-- the sender's invariant on its own: for a session created with a `d/p` encoder, after ANY sequence
+of session operations, if the FEC ids have not wrapped, there is one family of well-formed `d/p` groups
+such that every datagram on the wire is a packet of it and every payload of it is a datagram the core
+emitted or an empty placeholder (`EncGenuine`) -/
+theorem C01_fec_sender_genuine {C : CodecNew} (hC : Lawful C) (d p : Nat) (enc0 : Encoder)
+    (hnewE : Encoder.new C d p 0 = some enc0) (x : SessFec) (he : x.enc = some enc0)
+    (hh : x.headerSize = fecHeaderSizePlus2) (ops : List FecOp)
+    (hwrap : NoWrap d p (ops.foldl (fecStep C) { x := x }).cwire) :
+    EncGenuine C d p (ops.foldl (fecStep C) { x := x }) := by
+  have h : ∀ (ops : List FecOp) (f : FecG), EncOk C d p f → EncOk C d p (ops.foldl (fecStep C) f) := by
+    intro ops
+    induction ops with
+    | nil => intro f h; exact h
+    | cons op rest ih => intro f h; exact ih _ (fecStep_encOk hC h op).1
+  exact encOk_genuine (h ops _ (encOk_fresh hnewE x he hh)) hwrap
+
+/-! ## cipher + FEC together -/
+
+/-- operations of the two-session system with FEC and a cipher on the path `A → B` -/
+inductive C01_FCOp where
+  | a (op : FecOp)
+  | b (op : FecOp)
+  /-- the network hands `B.packetInput` an arbitrary (ciphertext) datagram -/
+  | net (data : Bytes) (now : U32) (gap : Int)
+
+/-- `B`'s receive path: `SessIn.sessionPacketInput` (decrypt, verify, size check — the gate of C06) in
+front of `kcpInput` with FEC (`Model/SessFec.lean`).  `A`'s `wire` holds the plaintext frames (FEC
+packets); what travels is their encryption (`Wire.cryptFrame` under `enc`, resp. `nonce ‖ Seal`). -/
+def C01_fcstep (C : CodecNew) (c : SessIn.Cipher) (s : FecSys) : C01_FCOp → FecSys
+  | .a op => { s with A := fecStep C s.A op }
+  | .b op => if isFecInput op then s else { s with B := fecStep C s.B op }
+  | .net data now gap =>
+    { s with B := (SessIn.sessionPacketInput c (fun x p => fecStep C x (.input p now gap)) s.B data).st }
+
+def C01_fcrun (C : CodecNew) (c : SessIn.Cipher) (s : FecSys) (ops : List C01_FCOp) : FecSys :=
+  ops.foldl (C01_fcstep C c) s
+
+/-- every datagram the network delivers is, at the time of delivery, a genuine ciphertext of a frame
+`A` has put on the wire so far, or a corruption the integrity check catches -/
+def C01_FCRunOk (C : CodecNew) (c : SessIn.Cipher) (Ok : List Bytes → Bytes → Prop) : FecSys → List C01_FCOp → Prop
+  | _, [] => True
+  | s, .net data now gap :: rest =>
+    Ok s.A.wire data ∧ C01_FCRunOk C c Ok (C01_fcstep C c s (.net data now gap)) rest
+  | s, op :: rest => C01_FCRunOk C c Ok (C01_fcstep C c s op) rest
+
+/-- behind a sound gate, a run with cipher and FEC under the corrupting network is a run of the FEC
+system under the drop / duplicate / reorder network -/
+theorem C01_fcrun_is_fec (C : CodecNew) (c : SessIn.Cipher) (Ok : List Bytes → Bytes → Prop)
+    (hg : C01_GateSound c Ok) :
+    ∀ (ops : List C01_FCOp) (s : FecSys), C01_FCRunOk C c Ok s ops →
+      ∃ plain : List FSOp, C01_fcrun C c s ops = fsrun C s plain := by
+  intro ops
+  induction ops with
+  | nil => intro s _; exact ⟨[], rfl⟩
+  | cons op rest ih =>
+    intro s hok
+    cases op with
+    | a op =>
+      obtain ⟨pl, h⟩ := ih (C01_fcstep C c s (.a op)) hok
+      exact ⟨.a op :: pl, h⟩
+    | b op =>
+      obtain ⟨pl, h⟩ := ih (C01_fcstep C c s (.b op)) hok
+      exact ⟨.b op :: pl, h⟩
+    | net data now gap =>
+      obtain ⟨hd, hrest⟩ := hok
+      obtain ⟨pl, h⟩ := ih (C01_fcstep C c s (.net data now gap)) hrest
+      rcases hg FecG (fun x p => fecStep C x (.input p now gap)) s.B s.A.wire data hd with
+        ⟨_, h2⟩ | ⟨f, hf, _, h2⟩
+      · refine ⟨pl, ?_⟩
+        show C01_fcrun C c (C01_fcstep C c s (.net data now gap)) rest = _
+        rw [h]
+        have : C01_fcstep C c s (.net data now gap) = s := by
+          show { s with B := _ } = s
+          rw [h2]
+        rw [this]
+      · obtain ⟨i, hi⟩ := List.getElem?_of_mem hf
+        refine ⟨.dlv i now gap :: pl, ?_⟩
+        show C01_fcrun C c (C01_fcstep C c s (.net data now gap)) rest = fsrun C (fsstep C s (.dlv i now gap)) pl
+        rw [h]
+        have : C01_fcstep C c s (.net data now gap) = fsstep C s (.dlv i now gap) := by
+          show { s with B := _ } = _
+          rw [h2]
+          simp [fsstep, hi]
+        rw [this]
+
+/-- **`C01_session_full`: cipher + FEC.**  Two sessions with FEC `d/p` at both ends and a cipher whose
+gate is sound against the network `Ok` (`C01_gate_step`: CRC-style ciphers; `C01_gate_step_aead`:
+AEAD).  The network may drop, duplicate, reorder, delay, replay and CORRUPT ciphertext datagrams (any
+corruption the integrity check catches); what passes the gate are exactly plaintext frames `A` emitted,
+which are the FEC packets, data or parity.  Hypotheses otherwise as `C01_session_fec`.  Then everything
+`B.Read` has returned is a prefix of everything `A.WriteBuffers` has accepted. -/
+theorem C01_session_full {C : CodecNew} (hC : Lawful C) (c : SessIn.Cipher) (Ok : List Bytes → Bytes → Prop)
+    (hg : C01_GateSound c Ok) (d p : Nat) (enc0 : Encoder) (dec0 : Decoder)
+    (hnewE : Encoder.new C d p 0 = some enc0) (hnewD : Decoder.new C d p = some dec0)
+    (xA xB : SessFec) (hA : Fresh xA.s.k) (hB : Fresh xB.s.k) (hbB : xB.s.bufptr = [])
+    (heA : xA.enc = some enc0) (hhA : xA.headerSize = fecHeaderSizePlus2) (hdB : xB.dec = some dec0)
+    (hsn : xB.s.k.rcv_nxt = xA.s.k.snd_nxt) (hm : 0 < xA.s.k.mss.toNat) (ops : List C01_FCOp)
+    (hnet : C01_FCRunOk C c Ok ⟨{ x := xA }, { x := xB }⟩ ops)
+    (hwrap : NoWrap d p (C01_fcrun C c ⟨{ x := xA }, { x := xB }⟩ ops).A.cwire)
+    (hL : (C01_fcrun C c ⟨{ x := xA }, { x := xB }⟩ ops).A.log.length < 2 ^ 32) :
+    (C01_fcrun C c ⟨{ x := xA }, { x := xB }⟩ ops).B.rd <+: (C01_fcrun C c ⟨{ x := xA }, { x := xB }⟩ ops).A.wr := by
+  obtain ⟨plain, h⟩ := C01_fcrun_is_fec C c Ok hg ops _ hnet
+  rw [h] at hwrap hL ⊢
+  exact C01_session_fec hC d p enc0 dec0 hnewE hnewD xA xB hA hB hbB heA hhA hdB hsn hm plain hwrap hL
+
+/-- `C01_session_full` for CFB with any block cipher (aes, blowfish, twofish, cast5, 3des, tea, xtea, sm4) -/
+theorem C01_session_full_cfb {C : CodecNew} (hC : Lawful C) (bs : Nat) (hbs : bs = 8 ∨ bs = 16) (E : Bytes → Bytes)
+    (hE : BlockFn bs E) (crc : Bytes → BitVec 32) (d p : Nat) (enc0 : Encoder) (dec0 : Decoder)
+    (hnewE : Encoder.new C d p 0 = some enc0) (hnewD : Decoder.new C d p = some dec0)
+    (xA xB : SessFec) (hA : Fresh xA.s.k) (hB : Fresh xB.s.k) (hbB : xB.s.bufptr = [])
+    (heA : xA.enc = some enc0) (hhA : xA.headerSize = fecHeaderSizePlus2) (hdB : xB.dec = some dec0)
+    (hsn : xB.s.k.rcv_nxt = xA.s.k.snd_nxt) (hm : 0 < xA.s.k.mss.toNat) (ops : List C01_FCOp)
+    (hnet : C01_FCRunOk C { kind := .block, dec := Cfb.cfbDec E bs (iv bs), crc := crc, aopen := fun _ _ => none }
+      (C01_NetDatagramOk { kind := .block, dec := Cfb.cfbDec E bs (iv bs), crc := crc, aopen := fun _ _ => none }
+        (Cfb.cfbEnc E bs (iv bs))) ⟨{ x := xA }, { x := xB }⟩ ops)
+    (hwrap : NoWrap d p (C01_fcrun C { kind := .block, dec := Cfb.cfbDec E bs (iv bs), crc := crc, aopen := fun _ _ => none }
+      ⟨{ x := xA }, { x := xB }⟩ ops).A.cwire)
+    (hL : (C01_fcrun C { kind := .block, dec := Cfb.cfbDec E bs (iv bs), crc := crc, aopen := fun _ _ => none }
+      ⟨{ x := xA }, { x := xB }⟩ ops).A.log.length < 2 ^ 32) :
+    (C01_fcrun C { kind := .block, dec := Cfb.cfbDec E bs (iv bs), crc := crc, aopen := fun _ _ => none }
+        ⟨{ x := xA }, { x := xB }⟩ ops).B.rd <+:
+      (C01_fcrun C { kind := .block, dec := Cfb.cfbDec E bs (iv bs), crc := crc, aopen := fun _ _ => none }
+        ⟨{ x := xA }, { x := xB }⟩ ops).A.wr :=
+  C01_session_full hC _ _ (C01_gate_step _ _ (C01_cfb_laws bs hbs E hE crc)) d p enc0 dec0 hnewE hnewD
+    xA xB hA hB hbB heA hhA hdB hsn hm ops hnet hwrap hL
+
+/-- `C01_session_full` for an AEAD (aes-gcm …), given the two laws of the primitive -/
+theorem C01_session_full_aead {C : CodecNew} (hC : Lawful C) (c : SessIn.Cipher) (ns ov : Nat)
+    (aseal : Bytes → Bytes → Bytes) (hc : C01_AeadLaws c ns ov aseal) (d p : Nat) (enc0 : Encoder) (dec0 : Decoder)
+    (hnewE : Encoder.new C d p 0 = some enc0) (hnewD : Decoder.new C d p = some dec0)
+    (xA xB : SessFec) (hA : Fresh xA.s.k) (hB : Fresh xB.s.k) (hbB : xB.s.bufptr = [])
+    (heA : xA.enc = some enc0) (hhA : xA.headerSize = fecHeaderSizePlus2) (hdB : xB.dec = some dec0)
+    (hsn : xB.s.k.rcv_nxt = xA.s.k.snd_nxt) (hm : 0 < xA.s.k.mss.toNat) (ops : List C01_FCOp)
+    (hnet : C01_FCRunOk C c (C01_NetDatagramOkAead c ns ov aseal) ⟨{ x := xA }, { x := xB }⟩ ops)
+    (hwrap : NoWrap d p (C01_fcrun C c ⟨{ x := xA }, { x := xB }⟩ ops).A.cwire)
+    (hL : (C01_fcrun C c ⟨{ x := xA }, { x := xB }⟩ ops).A.log.length < 2 ^ 32) :
+    (C01_fcrun C c ⟨{ x := xA }, { x := xB }⟩ ops).B.rd <+: (C01_fcrun C c ⟨{ x := xA }, { x := xB }⟩ ops).A.wr :=
+  C01_session_full hC c _ (C01_gate_step_aead c ns ov aseal hc) d p enc0 dec0 hnewE hnewD
+    xA xB hA hB hbB heA hhA hdB hsn hm ops hnet hwrap hL
 
 /-! ### non-vacuity: recovery through parity in the model (executable GF(2^8) code) -/
 
@@ -95,13 +251,15 @@ def C01_exFec : List FSOp :=
 set_option maxRecDepth 1000000 in
 example :
     Fresh (SessFec.new rsNew 7 2 1).s.k ∧ (SessFec.new rsNew 7 2 1).dec = Decoder.new rsNew 2 1 ∧
+    (SessFec.new rsNew 7 2 1).enc = Encoder.new rsNew 2 1 0 ∧ (SessFec.new rsNew 7 2 1).headerSize = fecHeaderSizePlus2 ∧
+    NoWrap 2 1 (fsrun rsNew ⟨{ x := SessFec.new rsNew 7 2 1 }, { x := SessFec.new rsNew 7 2 1 }⟩ C01_exFec).A.cwire ∧
     (fsrun rsNew ⟨{ x := SessFec.new rsNew 7 2 1 }, { x := SessFec.new rsNew 7 2 1 }⟩ C01_exFec).A.wire.map Fec.flag
       = [typeData, typeData, typeParity] ∧
     (fsrun rsNew ⟨{ x := SessFec.new rsNew 7 2 1 }, { x := SessFec.new rsNew 7 2 1 }⟩ C01_exFec).B.recvd.length = 2 ∧
     (fsrun rsNew ⟨{ x := SessFec.new rsNew 7 2 1 }, { x := SessFec.new rsNew 7 2 1 }⟩ C01_exFec).A.wr = [1, 2, 3, 4, 5] ∧
     (fsrun rsNew ⟨{ x := SessFec.new rsNew 7 2 1 }, { x := SessFec.new rsNew 7 2 1 }⟩ C01_exFec).B.rd = [1, 2, 3, 4, 5] ∧
     (fsrun rsNew ⟨{ x := SessFec.new rsNew 7 2 1 }, { x := SessFec.new rsNew 7 2 1 }⟩ C01_exFec).B.dead = false := by
-  refine ⟨⟨by decide, by decide, by decide, by decide, by decide⟩, rfl, by decide, by decide, by decide,
-    by decide, by decide⟩
+  refine ⟨⟨by decide, by decide, by decide, by decide, by decide⟩, rfl, rfl, rfl, by decide, by decide, by decide,
+    by decide, by decide, by decide⟩
 
 end KcpVerif.Props
